@@ -14,7 +14,9 @@ EXTENDS LexTok, Naturals, Sequences, FiniteSets, TLC, Json
 CONSTANTS MaxAtoms,   \* longest atom path
           MaxStack,   \* deepest call stack explored
           Flex,       \* BOOLEAN: version >= 7.3 (flexible heredoc terminator) - the ONLY version-dependent rule
-          Small       \* BOOLEAN: one representative per atom family (quick tier) or all of them
+          Small,      \* BOOLEAN: one representative per atom family (quick tier) or all of them
+          LocalMax    \* 0, or: inside the index of "$a[...]" (string_var_index) all atom paths of up to LocalMax atoms are
+                      \* distinguished, so that every sequence of LocalMax + 1 index atoms is a behaviour of its own
 
 VARIABLES mode, stack,
           ws,        \* "none" | "ws" | "text" | "html": the last token can absorb a following run of the same kind
@@ -26,10 +28,11 @@ VARIABLES mode, stack,
           out,       \* history: tokens owed so far
           nerr,      \* history: lexer warnings owed
           ex,        \* history: only atoms with a fully prescribed token stream so far
+          local,     \* the first LocalMax atoms consumed since string_var_index was entered (<<>> outside, or when LocalMax = 0)
           done
 
-view == <<mode, stack, ws, ni, bol, after, arrow, done>>
-vars == <<mode, stack, ws, ni, bol, after, arrow, path, out, nerr, ex, done>>
+view == <<mode, stack, ws, ni, bol, after, arrow, local, done>>
+vars == <<mode, stack, ws, ni, bol, after, arrow, path, out, nerr, ex, local, done>>
 
 \* ---------------------------------------------------------------- vocabularies
 
@@ -119,6 +122,9 @@ Eff(a, toks, m, st, w, n, b, af, ar, e) ==
    /\ mode' = m /\ stack' = st /\ ws' = w /\ ni' = n /\ bol' = b /\ after' = af /\ arrow' = ar
    /\ nerr' = nerr + e
    /\ ex' = (ex /\ a \notin Malformed)
+   /\ local' = IF LocalMax > 0 /\ m = "string_var_index" /\ mode = "string_var_index"
+               THEN (IF Len(local) < LocalMax THEN Append(local, a) ELSE local)
+               ELSE <<>>
    /\ UNCHANGED done
 
 \* after a heredoc terminator under < 7.3 only ';' then a newline, or a newline, may follow (else it is no terminator)
@@ -220,8 +226,14 @@ StrVar == /\ mode = "string_var" /\ stack # <<>>
              \/ StrBody(Top, Pop(1))                   \* anything else: fall out (fret) and scan it in the string mode
 
 StrIdx == /\ mode = "string_var_index" /\ Len(stack) >= 2
-          /\ \/ \E p \in {<<"IDX_NUM", "T_NUM_STRING">>, <<"IDX_HEX", "T_NUM_STRING">>, <<"IDX_VAR", "T_VARIABLE">>, <<"IDX_IDENT", "T_STRING">>, <<"IDX_MINUS", "CH:-">>} :
+          /\ \/ \E p \in {<<"IDX_NUM", "T_NUM_STRING">>, <<"IDX_HEX", "T_NUM_STRING">>, <<"IDX_BIN", "T_NUM_STRING">>, <<"IDX_SEP", "T_NUM_STRING">>,
+                          <<"IDX_VAR", "T_VARIABLE">>, <<"IDX_IDENT", "T_STRING">>, <<"IDX_MINUS", "CH:-">>} :
                   Eff(p[1], <<T(p[2])>>, mode, stack, "none", FALSE, FALSE, 0, FALSE, 0)
+             \* every other operator character is a token of its own and the index goes on
+             \/ \E c \in {"+", "*", ".", "(", ")", "[", ",", ";", "=", "!", "<", "@"} :
+                  Eff("IDX_OP:" \o c, <<T("CH:" \o c)>>, mode, stack, "none", FALSE, FALSE, 0, FALSE, 0)
+             \* a byte no rule of this mode knows ('{', '}', '"' ... ): a warning, no token, one byte skipped, the index goes on
+             \/ Eff("IDX_BADCHAR", <<>>, mode, stack, "none", FALSE, FALSE, 0, FALSE, 1)
              \/ Eff("IDX_RBRACKET", <<T("CH:]")>>, stack[Len(stack) - 1], Pop(2), "none", FALSE, FALSE, 0, FALSE, 0)
              \/ Eff("IDX_WS", <<T("T_ENCAPSED_AND_WHITESPACE")>>, stack[Len(stack) - 1], Pop(2), "none", FALSE, FALSE, 0, FALSE, 0)
 
@@ -229,7 +241,7 @@ StrIdx == /\ mode = "string_var_index" /\ Len(stack) >= 2
 Eof == /\ ~done /\ path # <<>>
        /\ done' = TRUE
        /\ path' = Append(path, "EOF")
-       /\ UNCHANGED <<mode, stack, ws, ni, bol, after, arrow, out, nerr, ex>>
+       /\ UNCHANGED <<mode, stack, ws, ni, bol, after, arrow, out, nerr, ex, local>>
 
 \* where the token stream is fully prescribed (V atoms only): not inside an unterminated construct
 Exact == /\ ex
@@ -244,7 +256,7 @@ Emit == PrintT(ToJson([path |-> path', toks |-> out', mode |-> mode', stack |-> 
 Next == (Step /\ Emit) \/ Eof
 
 Init == /\ mode = "main" /\ stack = <<>> /\ ws = "none" /\ ni = FALSE /\ bol = FALSE /\ after = 0 /\ arrow = FALSE
-        /\ path = <<>> /\ out = <<>> /\ nerr = 0 /\ ex = TRUE /\ done = FALSE
+        /\ path = <<>> /\ out = <<>> /\ nerr = 0 /\ ex = TRUE /\ local = <<>> /\ done = FALSE
 
 Spec == Init /\ [][Next]_vars
 
@@ -280,7 +292,7 @@ Reach(m, st, toks, k) ==          \* set of <<mode, stack>> reachable after toke
                   ELSE UNION {After(IF m0 = "main" THEN "html" ELSE m0, st, t.id, sh) : sh \in Shapes}
        IN UNION {Reach(NormMode(p[1], m), p[2], toks, k + 1) : p \in nxt}
 NewToks == SubSeq(out', Len(out) + 1, Len(out'))
-Consistent == [][(path' # path /\ ~done' /\ path'[Len(path')] \notin {"BADCHAR", "HD_END:indented"})
+Consistent == [][(path' # path /\ ~done' /\ path'[Len(path')] \notin {"BADCHAR", "IDX_BADCHAR", "HD_END:indented"})
                    => <<mode', stack'>> \in Reach(mode, stack, NewToks, 1)]_vars
 
 \* C08: white space and comments never change the mode of php scanning nor the stack
